@@ -1,7 +1,457 @@
-(* C16 — proofs *)
-From Coq Require Import ZArith QArith List Bool Lia.
+(* C16 — proofs, part 1: the tree rewrites preserve what is played *)
+From Coq Require Import ZArith QArith List Bool Lia ZifyBool.
 Require Import QV.C16.Model QV.C16.Spec.
 Import ListNotations.
+Open Scope Z_scope.
 
 Lemma reject_no_tables : forall c tbl p e, compile c tbl p = Err e -> forall o, compile c tbl p <> Ok o.
 Proof. intros c tbl p e H o H'. rewrite H in H'. discriminate. Qed.
+
+(* ---------------------------------------------------------------------------------------------------------- *)
+(* rep_concat algebra *)
+
+Definition flat_list (l : list loop) : list nat := concat (map flatten l).
+
+Lemma flat_list_app a b : flat_list (a ++ b) = flat_list a ++ flat_list b.
+Proof. unfold flat_list. now rewrite map_app, concat_app. Qed.
+
+Lemma flat_list_cons x l : flat_list (x :: l) = flatten x ++ flat_list l.
+Proof. reflexivity. Qed.
+
+Lemma flat_list_rev_cons x l : flat_list (rev (x :: l)) = flat_list (rev l) ++ flatten x.
+Proof. cbn [rev]. rewrite flat_list_app. cbn. now rewrite app_nil_r. Qed.
+
+Lemma repn_concat_app {A} n (x : list A) : concat (repeat x (S n)) = x ++ concat (repeat x n).
+Proof. reflexivity. Qed.
+
+Lemma repn_concat_snoc {A} n (x : list A) : concat (repeat x (S n)) = concat (repeat x n) ++ x.
+Proof.
+  induction n; [cbn; now rewrite app_nil_r|].
+  change (concat (repeat x (S (S n)))) with (x ++ concat (repeat x (S n))).
+  rewrite IHn at 1. change (concat (repeat x (S n))) with (x ++ concat (repeat x n)). now rewrite app_assoc.
+Qed.
+
+Lemma repn_concat_add {A} n m (x : list A) :
+  concat (repeat x (n + m)) = concat (repeat x n) ++ concat (repeat x m).
+Proof. induction n; cbn; [reflexivity|]. now rewrite IHn, app_assoc. Qed.
+
+Lemma repn_concat_mul {A} n m (x : list A) :
+  concat (repeat x (n * m)) = concat (repeat (concat (repeat x m)) n).
+Proof. induction n; cbn; [reflexivity|]. now rewrite repn_concat_add, IHn. Qed.
+
+Lemma rep_concat_1 {A} (x : list A) : rep_concat 1 x = x.
+Proof. unfold rep_concat. change (Z.to_nat 1) with 1%nat. cbn. now rewrite app_nil_r. Qed.
+
+Lemma rep_concat_mul {A} a b (x : list A) : 0 <= a -> 0 <= b ->
+  rep_concat (a * b) x = rep_concat a (rep_concat b x).
+Proof. intros. unfold rep_concat. rewrite Z2Nat.inj_mul by lia. apply repn_concat_mul. Qed.
+
+Lemma rep_concat_succ_l {A} n (x : list A) : 1 <= n -> rep_concat n x = x ++ rep_concat (n - 1) x.
+Proof.
+  intros. unfold rep_concat. replace (Z.to_nat n) with (S (Z.to_nat (n - 1))) by lia. apply repn_concat_app.
+Qed.
+
+Lemma rep_concat_succ_r {A} n (x : list A) : 1 <= n -> rep_concat n x = rep_concat (n - 1) x ++ x.
+Proof.
+  intros. unfold rep_concat. replace (Z.to_nat n) with (S (Z.to_nat (n - 1))) by lia. apply repn_concat_snoc.
+Qed.
+
+Lemma flat_list_rep_concat n l : flat_list (rep_concat n l) = rep_concat n (flat_list l).
+Proof.
+  unfold rep_concat. induction (Z.to_nat n) as [|k IHk]; [reflexivity|].
+  now rewrite !repn_concat_app, flat_list_app, IHk.
+Qed.
+
+Lemma forallb_rep_concat {A} (p : A -> bool) n l : forallb p l = true -> forallb p (rep_concat n l) = true.
+Proof.
+  intros H. unfold rep_concat. induction (Z.to_nat n) as [|k IHk]; [reflexivity|].
+  now rewrite repn_concat_app, forallb_app, H, IHk.
+Qed.
+
+Lemma forallb_rev' {A} (p : A -> bool) l : forallb p (rev l) = forallb p l.
+Proof.
+  induction l; cbn; [reflexivity|]. rewrite forallb_app, IHl. cbn. rewrite andb_true_r. apply andb_comm.
+Qed.
+
+(* ---------------------------------------------------------------------------------------------------------- *)
+(* good trees *)
+
+Lemma good_inv r m w ch : good (Loop r m w ch) = true ->
+  0 <= r /\ (ch <> [] -> w = None) /\ forallb good ch = true.
+Proof.
+  cbn. intros H. apply andb_prop in H as [H H3]. apply andb_prop in H as [H1 H2].
+  repeat split; [lia| |exact H3]. intros Hne. destruct ch; [congruence|]. now destruct w.
+Qed.
+
+Lemma good_intro r m w ch : 0 <= r -> (ch <> [] -> w = None) -> forallb good ch = true ->
+  good (Loop r m w ch) = true.
+Proof.
+  intros H1 H2 H3. cbn. rewrite H3. replace (0 <=? r) with true by lia.
+  destruct ch; [reflexivity|]. rewrite H2 by congruence. reflexivity.
+Qed.
+
+Lemma flatten_node r m w ch : good (Loop r m w ch) = true -> ch <> [] ->
+  flatten (Loop r m w ch) = rep_concat r (flat_list ch).
+Proof. intros G Hne. apply good_inv in G as (_ & Hw & _). rewrite (Hw Hne). reflexivity. Qed.
+
+Lemma leaf_depth l : is_leaf l = true -> depth l = 0.
+Proof. destruct l as [r m w [|c ch]]; cbn; [reflexivity|discriminate]. Qed.
+
+Lemma balanced_leaf l : is_leaf l = true -> balanced l = true.
+Proof. destruct l as [r m w [|c ch]]; cbn; [reflexivity|discriminate]. Qed.
+
+(* ---------------------------------------------------------------------------------------------------------- *)
+(* flatten_and_balance preserves what is played (for every fuel, depth, cursor position) *)
+
+Lemma encapsulate_ok l : good l = true -> good (encapsulate l) = true /\ flatten (encapsulate l) = flatten l.
+Proof.
+  intros G. split.
+  - unfold encapsulate. cbn. now rewrite G.
+  - unfold encapsulate. cbn [flatten wpart map concat app]. now rewrite rep_concat_1, app_nil_r.
+Qed.
+
+Lemma merge_child_ok l : good l = true -> can_merge l = true ->
+  good (merge_child l) = true /\ flatten (merge_child l) = flatten l.
+Proof.
+  destruct l as [r m w ch]. unfold can_merge. cbn [l_ch].
+  destruct ch as [|c [|c2 ch]]; try discriminate. intros G _.
+  pose proof (good_inv _ _ _ _ G) as (Hr & Hw & Hch). rewrite Hw by congruence.
+  cbn in Hch. rewrite andb_true_r in Hch. destruct c as [cr cm cw cch].
+  pose proof (good_inv _ _ _ _ Hch) as (Hcr & Hcw & Hcch).
+  split.
+  - cbn [merge_child]. apply good_intro; auto. lia.
+  - cbn [merge_child flatten wpart map concat app]. rewrite app_nil_r.
+    now rewrite rep_concat_mul by lia.
+Qed.
+
+Lemma unroll_ok l : good l = true -> is_leaf l = false ->
+  forallb good (unroll l) = true /\ flat_list (unroll l) = flatten l.
+Proof.
+  destruct l as [r m w ch]. intros G NL. unfold unroll. cbn [l_rep l_ch].
+  pose proof (good_inv _ _ _ _ G) as (Hr & Hw & Hch).
+  split; [now apply forallb_rep_concat|].
+  rewrite flat_list_rep_concat. rewrite flatten_node; auto. destruct ch; [discriminate|congruence].
+Qed.
+
+Lemma fab_ok : forall fuel d done todo r,
+  forallb good done = true -> forallb good todo = true ->
+  fab fuel d done todo = Ok r ->
+  forallb good r = true /\ flat_list r = flat_list (rev done) ++ flat_list todo.
+Proof.
+  induction fuel as [|f IH]; intros d done todo r Gd Gt H; [discriminate|].
+  cbn [fab] in H. destruct todo as [|sub rest].
+  - injection H as <-. split; [now rewrite forallb_rev'|]. cbn. now rewrite app_nil_r.
+  - cbn [forallb] in Gt. apply andb_prop in Gt as [Gs Gr].
+    destruct (depth sub <? d - 1).
+    { (* encapsulate *)
+      destruct (encapsulate_ok _ Gs) as [G' F'].
+      apply IH in H; [|assumption|cbn [forallb]; now rewrite G', Gr].
+      destruct H as [H1 H2]. split; [assumption|]. rewrite H2, !flat_list_cons, F'. reflexivity. }
+    destruct (negb (balanced sub)) eqn:Eb.
+    { (* recursive call on the children of sub *)
+      destruct sub as [sr sm sw sch].
+      destruct (fab f (d - 1) [] sch) as [ch'|e] eqn:Erec; [|discriminate].
+      pose proof (good_inv _ _ _ _ Gs) as (Hr & Hw & Hch).
+      apply IH in Erec; [|reflexivity|assumption]. destruct Erec as [Gch' Fch']. cbn in Fch'.
+      assert (Hne : sch <> []).
+      { intros ->. cbn in Eb. discriminate. }
+      assert (G' : good (Loop sr sm sw ch') = true).
+      { apply good_intro; auto. }
+      apply IH in H; [|assumption|cbn [forallb]; now rewrite G', Gr].
+      destruct H as [H1 H2]. split; [assumption|]. rewrite H2, !flat_list_cons. f_equal. f_equal.
+      rewrite (Hw Hne). cbn [flatten wpart app]. fold (flat_list ch'). fold (flat_list sch). now rewrite Fch'. }
+    destruct (depth sub =? d - 1).
+    { apply IH in H; [|cbn [forallb]; now rewrite Gs, Gd|assumption].
+      destruct H as [H1 H2]. split; [assumption|]. rewrite H2, flat_list_rev_cons, flat_list_cons.
+      now rewrite app_assoc. }
+    destruct (can_merge sub) eqn:Ec.
+    { destruct (merge_child_ok _ Gs Ec) as [G' F'].
+      apply IH in H; [|assumption|cbn [forallb]; now rewrite G', Gr].
+      destruct H as [H1 H2]. split; [assumption|]. rewrite H2, !flat_list_cons, F'. reflexivity. }
+    destruct (negb (is_leaf sub)) eqn:El.
+    { apply negb_true_iff in El. destruct (unroll_ok _ Gs El) as [G' F'].
+      apply IH in H; [|assumption|now rewrite forallb_app, G', Gr].
+      destruct H as [H1 H2]. split; [assumption|]. rewrite H2, flat_list_app, flat_list_cons, F'. reflexivity. }
+    apply IH in H; [|cbn [forallb]; now rewrite Gs, Gd|assumption].
+    destruct H as [H1 H2]. split; [assumption|]. rewrite H2, flat_list_rev_cons, flat_list_cons.
+    now rewrite app_assoc.
+Qed.
+
+Definition nonleaf (l : loop) : bool := negb (is_leaf l).
+
+Lemma fab_nonleaf : forall fuel d done todo r, 2 <= d ->
+  forallb nonleaf done = true -> fab fuel d done todo = Ok r -> forallb nonleaf r = true.
+Proof.
+  induction fuel as [|f IH]; intros d done todo r Hd Nd H; [discriminate|].
+  cbn [fab] in H. destruct todo as [|sub rest].
+  - injection H as <-. now rewrite forallb_rev'.
+  - destruct (depth sub <? d - 1) eqn:E1; [eapply IH; eauto|].
+    destruct (negb (balanced sub)).
+    { destruct sub as [sr sm sw sch]. destruct (fab f (d - 1) [] sch); [|discriminate]. eapply IH; eauto. }
+    destruct (depth sub =? d - 1) eqn:E3.
+    { eapply IH; [exact Hd| |exact H]. cbn [forallb]. rewrite Nd, andb_true_r.
+      unfold nonleaf. destruct (is_leaf sub) eqn:El; [|reflexivity]. apply leaf_depth in El. lia. }
+    destruct (can_merge sub); [eapply IH; eauto|].
+    destruct (negb (is_leaf sub)) eqn:El; [eapply IH; eauto|].
+    apply negb_false_iff in El. apply leaf_depth in El. lia.
+Qed.
+
+(* ---------------------------------------------------------------------------------------------------------- *)
+(* prepare_program_for_advanced_sequence_mode preserves what is played *)
+
+(* a sequence table: a good node without a waveform of its own *)
+Definition tgood (t : loop) : bool := good t && match l_wf t with None => true | Some _ => false end.
+
+Lemma tgood_inv t : tgood t = true ->
+  exists r m ch, t = Loop r m None ch /\ 0 <= r /\ forallb good ch = true.
+Proof.
+  unfold tgood. intros H. apply andb_prop in H as [G W]. destruct t as [r m [w|] ch]; [discriminate|].
+  apply good_inv in G as (Hr & _ & Hch). now exists r, m, ch.
+Qed.
+
+Lemma tgood_intro r m ch : 0 <= r -> forallb good ch = true -> tgood (Loop r m None ch) = true.
+Proof. intros. unfold tgood. cbn [l_wf]. rewrite andb_true_r. apply good_intro; auto. Qed.
+
+Lemma tflatten r m ch : flatten (Loop r m None ch) = rep_concat r (flat_list ch).
+Proof. reflexivity. Qed.
+
+Lemma good_nonleaf_tgood t : good t = true -> nonleaf t = true -> tgood t = true.
+Proof.
+  intros G N. unfold tgood. rewrite G. destruct t as [r m w ch]. apply good_inv in G as (_ & Hw & _).
+  unfold nonleaf in N. cbn in N. destruct ch; [discriminate|]. now rewrite Hw by congruence.
+Qed.
+
+Lemma good_set_rep c r : good c = true -> 0 <= r -> good (set_rep c r) = true.
+Proof.
+  destruct c as [r0 m w ch]. intros G Hr. apply good_inv in G as (_ & Hw & Hch). now apply good_intro.
+Qed.
+
+Lemma flatten_set_rep c r : flatten (set_rep c r) = rep_concat r (wpart (l_wf c) ++ flat_list (l_ch c)).
+Proof. destruct c; reflexivity. Qed.
+
+Lemma flatten_as_rep c : flatten c = rep_concat (l_rep c) (wpart (l_wf c) ++ flat_list (l_ch c)).
+Proof. destruct c; reflexivity. Qed.
+
+Lemma split_last_ok : forall l l', forallb good l = true -> split_last l = Some l' ->
+  forallb good l' = true /\ flat_list l' = flat_list l /\ length l' = S (length l).
+Proof.
+  induction l as [|c t IH]; intros l' G H; [discriminate|].
+  cbn [forallb] in G. apply andb_prop in G as [Gc Gt]. cbn [split_last] in H.
+  destruct (split_last t) as [t'|] eqn:E.
+  - injection H as <-. destruct (IH _ Gt eq_refl) as (G' & F' & L').
+    repeat split; [cbn [forallb]; now rewrite Gc, G'|now rewrite !flat_list_cons, F'|cbn; now rewrite L'].
+  - destruct (l_rep c >? 1) eqn:Er; [|discriminate]. injection H as <-.
+    split; [|split].
+    + cbn [forallb]. rewrite !good_set_rep, Gt by (auto; lia). reflexivity.
+    + rewrite !flat_list_cons, !flatten_set_rep, (flatten_as_rep c), rep_concat_1.
+      rewrite (rep_concat_succ_r (l_rep c)) by lia. now rewrite app_assoc.
+    + reflexivity.
+Qed.
+
+Lemma split_until_ok : forall k mn st st', tgood st = true -> split_until k mn st = Ok st' ->
+  tgood st' = true /\ flatten st' = flatten st /\ l_rep st' = l_rep st.
+Proof.
+  induction k as [|k IH]; intros mn st st' G H; cbn [split_until] in H.
+  - destruct (l_len st <? mn); [discriminate|]. injection H as <-. auto.
+  - destruct (l_len st <? mn); [|injection H as <-; auto].
+    destruct (split_last (l_ch st)) as [ch'|] eqn:E; [|discriminate].
+    destruct (tgood_inv _ G) as (r & m & ch & -> & Hr & Hch). cbn [l_ch] in E.
+    destruct (split_last_ok _ _ Hch E) as (G' & F' & _).
+    apply IH in H; [|cbn [set_ch]; now apply tgood_intro].
+    destruct H as (H1 & H2 & H3). repeat split; [assumption| |assumption].
+    rewrite H2. cbn [set_ch]. now rewrite !tflatten, F'.
+Qed.
+
+Lemma partial_unroll_ok st mn st' : tgood st = true -> partial_unroll st mn = Some (Ok st') ->
+  tgood st' = true /\ flatten st' = flatten st.
+Proof.
+  intros G H. unfold partial_unroll in H.
+  destruct (sum_reps (l_ch st) * l_rep st >=? mn); [|discriminate].
+  injection H as H. destruct (tgood_inv _ G) as (r & m & ch & -> & Hr & Hch).
+  destruct (sum_reps (l_ch (Loop r m None ch)) <? mn).
+  - apply split_until_ok in H.
+    + destruct H as (H1 & H2 & _). split; [assumption|]. rewrite H2. cbn [unroll_children].
+      rewrite !tflatten, flat_list_rep_concat, rep_concat_1. reflexivity.
+    + cbn [unroll_children]. apply tgood_intro; [lia|]. now apply forallb_rep_concat.
+  - apply split_until_ok in H; [|assumption]. destruct H as (H1 & H2 & _). auto.
+Qed.
+
+Definition tables_flat (before after : list loop) : list nat := flat_list (rev before) ++ flat_list after.
+
+Lemma append_children_ok a b : tgood a = true -> tgood b = true -> l_rep b = 1 ->
+  tgood (append_children a b) = true /\
+  flatten (append_children a b) = rep_concat (l_rep a) (flat_list (l_ch a) ++ flat_list (l_ch b)) /\
+  l_rep (append_children a b) = l_rep a.
+Proof.
+  intros Ga Gb Hb. destruct (tgood_inv _ Ga) as (r & m & ch & -> & Hr & Hch).
+  destruct (tgood_inv _ Gb) as (r2 & m2 & ch2 & -> & Hr2 & Hch2).
+  unfold append_children. cbn [l_ch set_ch l_rep]. repeat split.
+  - apply tgood_intro; auto. now rewrite forallb_app, Hch, Hch2.
+  - now rewrite tflatten, flat_list_app.
+Qed.
+
+Lemma prepend_children_ok a b : tgood a = true -> tgood b = true ->
+  tgood (prepend_children a b) = true /\
+  flatten (prepend_children a b) = rep_concat (l_rep b) (flat_list (l_ch a) ++ flat_list (l_ch b)).
+Proof.
+  intros Ga Gb. destruct (tgood_inv _ Ga) as (r & m & ch & -> & Hr & Hch).
+  destruct (tgood_inv _ Gb) as (r2 & m2 & ch2 & -> & Hr2 & Hch2).
+  unfold prepend_children. cbn [l_ch set_ch l_rep]. split.
+  - apply tgood_intro; auto. now rewrite forallb_app, Hch, Hch2.
+  - now rewrite tflatten, flat_list_app.
+Qed.
+
+Lemma dec_rep_ok a : tgood a = true -> 1 < l_rep a ->
+  tgood (dec_rep a) = true /\ flatten (dec_rep a) = rep_concat (l_rep a - 1) (flat_list (l_ch a)).
+Proof.
+  intros Ga H. destruct (tgood_inv _ Ga) as (r & m & ch & -> & Hr & Hch). cbn [l_rep] in *.
+  unfold dec_rep. cbn [set_rep l_rep l_ch]. split; [apply tgood_intro; auto; lia|apply tflatten].
+Qed.
+
+Lemma tflatten' t : tgood t = true -> flatten t = rep_concat (l_rep t) (flat_list (l_ch t)).
+Proof. intros G. destruct (tgood_inv _ G) as (r & m & ch & -> & _). reflexivity. Qed.
+
+Lemma tables_flat_cons_l x before after :
+  tables_flat (x :: before) after = flat_list (rev before) ++ flatten x ++ flat_list after.
+Proof. unfold tables_flat. now rewrite flat_list_rev_cons, app_assoc. Qed.
+
+Lemma tables_flat_cons_r x before after :
+  tables_flat before (x :: after) = flat_list (rev before) ++ flatten x ++ flat_list after.
+Proof. reflexivity. Qed.
+
+Lemma move_skip cur cur' before rest : flatten cur' = flatten cur ->
+  tables_flat (cur' :: before) rest = tables_flat before (cur :: rest).
+Proof. intros H. now rewrite tables_flat_cons_l, tables_flat_cons_r, H. Qed.
+
+Lemma move_merge_prev p cur bt rest : tgood p = true -> tgood cur = true -> l_rep p = 1 -> l_rep cur = 1 ->
+  tables_flat (append_children p cur :: bt) rest = tables_flat (p :: bt) (cur :: rest).
+Proof.
+  intros Gp Gc Hp Hc. destruct (append_children_ok _ _ Gp Gc Hc) as (_ & F & _).
+  rewrite !tables_flat_cons_l, flat_list_cons, F, (tflatten' p), (tflatten' cur), Hp, Hc by assumption.
+  now rewrite !rep_concat_1, <- !app_assoc.
+Qed.
+
+Lemma move_merge_next cur nx before rt : tgood cur = true -> tgood nx = true -> l_rep cur = 1 -> l_rep nx = 1 ->
+  tables_flat before (append_children cur nx :: rt) = tables_flat before (cur :: nx :: rt).
+Proof.
+  intros Gc Gn Hc Hn. destruct (append_children_ok _ _ Gc Gn Hn) as (_ & F & _).
+  rewrite !tables_flat_cons_r, flat_list_cons, F, (tflatten' cur), (tflatten' nx), Hc, Hn by assumption.
+  now rewrite !rep_concat_1, <- !app_assoc.
+Qed.
+
+Lemma move_nb_prev p cur bt rest : tgood p = true -> tgood cur = true -> l_rep cur = 1 -> 1 < l_rep p ->
+  tables_flat (dec_rep p :: bt) (prepend_children p cur :: rest) = tables_flat (p :: bt) (cur :: rest).
+Proof.
+  intros Gp Gc Hc Hp. destruct (prepend_children_ok _ _ Gp Gc) as (_ & F).
+  destruct (dec_rep_ok _ Gp Hp) as (_ & F2).
+  rewrite !tables_flat_cons_l, !flat_list_cons, F, F2, (tflatten' p), (tflatten' cur), Hc by assumption.
+  rewrite !rep_concat_1, (rep_concat_succ_r (l_rep p)) by lia. now rewrite <- !app_assoc.
+Qed.
+
+Lemma move_nb_next cur nx before rt : tgood cur = true -> tgood nx = true -> l_rep cur = 1 -> 1 < l_rep nx ->
+  tables_flat before (append_children cur nx :: dec_rep nx :: rt) = tables_flat before (cur :: nx :: rt).
+Proof.
+  intros Gc Gn Hc Hn.
+  destruct (tgood_inv _ Gc) as (r & m & ch & -> & Hr & Hch).
+  destruct (tgood_inv _ Gn) as (r2 & m2 & ch2 & -> & Hr2 & Hch2). cbn [l_rep] in *. subst r.
+  unfold append_children, dec_rep. cbn [l_ch set_ch set_rep l_rep].
+  rewrite !tables_flat_cons_r, !flat_list_cons, !tflatten, flat_list_app, !rep_concat_1.
+  rewrite (rep_concat_succ_l r2) by lia. now rewrite <- !app_assoc.
+Qed.
+
+Lemma merge_ok_inv a b mx : merge_ok a b mx = true -> l_rep a = 1 /\ l_rep b = 1.
+Proof. unfold merge_ok. lia. Qed.
+
+Lemma tgood_append a b : tgood a = true -> tgood b = true -> tgood (append_children a b) = true.
+Proof.
+  intros Ga Gb. destruct (tgood_inv _ Ga) as (r & m & ch & -> & Hr & Hch).
+  destruct (tgood_inv _ Gb) as (r2 & m2 & ch2 & -> & Hr2 & Hch2).
+  unfold append_children. cbn [l_ch set_ch]. apply tgood_intro; auto. now rewrite forallb_app, Hch, Hch2.
+Qed.
+
+Ltac fb := cbn [forallb] in *; repeat match goal with H : andb _ _ = true |- _ => apply andb_prop in H as [? ?] end.
+Ltac fbs := cbn [forallb]; repeat match goal with |- andb _ _ = true => apply andb_true_intro; split end; auto.
+
+Lemma after_unroll_ok cur mn before rest other b a :
+  tgood cur = true -> forallb tgood before = true -> forallb tgood rest = true ->
+  after_unroll (partial_unroll cur mn) before rest other = PNext b a ->
+  (forallb tgood b = true /\ forallb tgood a = true /\ tables_flat b a = tables_flat before (cur :: rest))
+  \/ other = PNext b a.
+Proof.
+  intros Gc Gb Gr H. unfold after_unroll in H.
+  destruct (partial_unroll cur mn) as [[cur'|e]|] eqn:E; [|discriminate|now right].
+  left. injection H as <- <-. destruct (partial_unroll_ok _ _ _ Gc E) as [G' F'].
+  split; [fbs|]. split; [assumption|]. now apply move_skip.
+Qed.
+
+Lemma prep_step_ok mn mx before after b a :
+  forallb tgood before = true -> forallb tgood after = true ->
+  prep_step mn mx before after = PNext b a ->
+  forallb tgood b = true /\ forallb tgood a = true /\ tables_flat b a = tables_flat before after.
+Proof.
+  intros Gb Ga H. unfold prep_step in H. destruct after as [|cur rest]; [discriminate|].
+  fb. rename H0 into Gc. rename H1 into Gr.
+  destruct (l_len cur >? mx); [discriminate|].
+  destruct (l_len cur <? mn).
+  2:{ injection H as <- <-. split; [fbs|]. split; [assumption|]. now apply move_skip. }
+  destruct (negb (l_rep cur >? 0)); [discriminate|].
+  destruct (l_rep cur =? 1) eqn:E1.
+  2:{ apply after_unroll_ok in H; auto. destruct H as [H|H]; [exact H|discriminate]. }
+  assert (Hc : l_rep cur = 1) by lia.
+  assert (NBN : forall nx rt, rest = nx :: rt ->
+            (if (l_rep nx >? 1) && (l_len cur + l_len nx <? mx)
+             then PNext before (append_children cur nx :: dec_rep nx :: rt) else PErr ETooShort) = PNext b a ->
+            forallb tgood b = true /\ forallb tgood a = true /\ tables_flat b a = tables_flat before (cur :: rest)).
+  { intros nx rt -> H'. fb. destruct ((l_rep nx >? 1) && (l_len cur + l_len nx <? mx)) eqn:E; [|discriminate].
+    injection H' as <- <-. assert (1 < l_rep nx) by lia.
+    split; [assumption|]. split; [|now apply move_nb_next].
+    fbs. now apply tgood_append. now apply dec_rep_ok. }
+  destruct before as [|p bt].
+  - destruct rest as [|nx rt].
+    + apply after_unroll_ok in H; auto. destruct H as [H|H]; [exact H|discriminate].
+    + destruct (merge_ok cur nx mx) eqn:Em.
+      * injection H as <- <-. fb. apply merge_ok_inv in Em as [? ?].
+        split; [reflexivity|]. split; [fbs; now apply tgood_append|]. now apply move_merge_next.
+      * apply after_unroll_ok in H; auto. destruct H as [H|H]; [exact H|]. eapply NBN; eauto.
+  - fb. rename H0 into Gp. rename H1 into Gbt.
+    assert (NBP : forall other,
+              (if (l_rep p >? 1) && (l_len cur + l_len p <? mx)
+               then PNext (dec_rep p :: bt) (prepend_children p cur :: rest) else other) = PNext b a ->
+              (forallb tgood b = true /\ forallb tgood a = true /\
+               tables_flat b a = tables_flat (p :: bt) (cur :: rest)) \/ other = PNext b a).
+    { intros other H'. destruct ((l_rep p >? 1) && (l_len cur + l_len p <? mx)) eqn:E; [|now right].
+      left. injection H' as <- <-. assert (1 < l_rep p) by lia.
+      split; [fbs; now apply dec_rep_ok|]. split; [fbs; now apply prepend_children_ok|].
+      now apply move_nb_prev. }
+    destruct (merge_ok p cur mx) eqn:Em.
+    + injection H as <- <-. apply merge_ok_inv in Em as [? ?].
+      split; [fbs; now apply tgood_append|]. split; [assumption|]. now apply move_merge_prev.
+    + destruct rest as [|nx rt].
+      * apply after_unroll_ok in H; auto; [|fbs]. destruct H as [H|H]; [exact H|].
+        apply NBP in H. destruct H as [H|H]; [exact H|discriminate].
+      * destruct (merge_ok cur nx mx) eqn:Em2.
+        { injection H as <- <-. fb. apply merge_ok_inv in Em2 as [? ?].
+          split; [fbs|]. split; [fbs; now apply tgood_append|]. now apply move_merge_next. }
+        apply after_unroll_ok in H; auto; [|fbs]. destruct H as [H|H]; [exact H|].
+        apply NBP in H. destruct H as [H|H]; [exact H|].
+        destruct (NBN nx rt eq_refl H) as (X1 & X2 & X3). auto.
+Qed.
+
+Lemma prep_ok : forall fuel mn mx before after r,
+  forallb tgood before = true -> forallb tgood after = true ->
+  prep fuel mn mx before after = Ok r ->
+  forallb tgood r = true /\ flat_list r = tables_flat before after.
+Proof.
+  induction fuel as [|f IH]; intros mn mx before after r Gb Ga H; [discriminate|].
+  cbn [prep] in H. destruct (prep_step mn mx before after) as [b a|r'|e] eqn:E; [| |discriminate].
+  - destruct (prep_step_ok _ _ _ _ _ _ Gb Ga E) as (G1 & G2 & F). rewrite <- F. eapply IH; eauto.
+  - injection H as <-. unfold prep_step in E. destruct after as [|cur rest].
+    + injection E as <-. split; [now rewrite forallb_rev'|]. unfold tables_flat. cbn. now rewrite app_nil_r.
+    + exfalso. fb.
+      destruct (l_len cur >? mx); [discriminate|]. destruct (l_len cur <? mn); [|discriminate].
+      destruct (negb (l_rep cur >? 0)); [discriminate|].
+      unfold after_unroll in E.
+      repeat match type of E with
+             | context [match ?x with _ => _ end] => destruct x; try discriminate
+             end.
+Qed.
